@@ -586,6 +586,8 @@ class AcctSim(object):
                 zone = F(1, 10 ** 9) * max(1, abs(imb), abs(target), abs(pos))
                 near_lot = (not (exact and small_dyadic(imb))) and (frac_part <= zone or 1 - frac_part <= zone or
                                                                      abs(abs(imb) - abs(int(imb))) <= zone)
+                if round(imb) == 0:
+                    near_lot = False        # next to zero both neighbours truncate to zero lots: nothing is undecided there
             else:
                 qty = imb
                 near_lot = False
